@@ -113,6 +113,17 @@ impl<B> CallHolder<B> {
         }
     }
 
+    pub(crate) fn convert_to_recv_response_skip_body(&mut self) {
+        let with_body = mem::replace(self, CallHolder::Empty);
+        let call = match with_body {
+            CallHolder::WithBody(call) => call,
+            _ => unreachable!(),
+        };
+
+        let call = call.into_receive_skip_body();
+        let _ = mem::replace(self, CallHolder::RecvResponse(call));
+    }
+
     pub(crate) fn convert_to_send_body(&mut self) {
         if !matches!(self, CallHolder::WithoutBody(_)) {
             return;
